@@ -71,6 +71,7 @@ class Keeper:
         self.lock = threading.Condition()
         self.pending_status = 0      # status requests waiting at the gate
         self.served = 0              # plans taken by a status request so far
+        self.last_chan = None        # channel state of the agent as last read (hex); None = never read
         self.release = []            # queue of plans
         self.current = None
         self.calls = []              # host-side record of acquire/attest
@@ -161,7 +162,10 @@ class Keeper:
                 if left <= 0:
                     return False
                 self.lock.wait(timeout=min(left, 0.15))
-                if kick and not kicked and self.pending_status == 0 and time.time() > end - timeout + 0.1:
+                # a notify is only neutral while the channel state is Unknown (it then merely ends the 1 s wait early); in the
+                # disabled state the agent answers a notify by resetting its state to Unknown, which would be the driver's doing
+                if kick and not kicked and self.pending_status == 0 and time.time() > end - timeout + 0.1 and \
+                        self.last_chan in (None, hx("Unknown")):
                     kicked = True
                     self.lock.release()
                     try:
@@ -187,7 +191,9 @@ class Keeper:
                 self.lock.wait(timeout=min(left, 0.1))
         if not self.wait_at_gate(timeout=8.0, kick=kick):
             return None
-        return self.ctl(self.state_op)
+        line = self.ctl(self.state_op)
+        self.last_chan = parse_state(line).get("chan")
+        return line
 
     def alive(self):
         return self.proc.poll() is None
